@@ -126,6 +126,7 @@ PROPS = {
                          "mpm.create is a contract slot (returns a new model for the identifier)"],
     },
     "C03": {
+        "standins": ["lean"],
         "units": [walks.units_c03], "level": "other", "design_ref": "7.3",
         "technique": VC + "multiwalk with both fetchers against an UNCONSTRAINED agent (arbitrary bindings): inductive invariant "
                      "over ghost sets (continued-from, witnesses, revealed), variant from a finite-universe rank; roots, "
@@ -134,7 +135,7 @@ PROPS = {
                          "x690 ObjectIdentifier order/containment contract (assumed, validated by enumeration)"],
     },
     "C01": {
-        "standins": ["walks-getnext"],
+        "standins": ["walks-getnext", "lean"],
         "units": [walks.units_c01], "level": "other", "design_ref": "7.1",
         "technique": VC + "multiwalk verified with an inductive loop invariant over an uninterpreted, totally ordered OID "
                      "sort (axioms Lean-checked) against an RFC 3416 agent model; database, OIDs, iteration count unbounded; "
@@ -143,7 +144,7 @@ PROPS = {
                          "x690 ObjectIdentifier order/containment contract (assumed, validated by enumeration)"],
     },
     "C02": {
-        "standins": ["walks-bulk"],
+        "standins": ["walks-bulk", "lean"],
         "units": [walks.units_c02], "level": "other", "design_ref": "7.2",
         "technique": VC + "multiwalk with the real bulk fetcher (closure, bulkget) under the same invariant and postcondition "
                      "as the GETNEXT walk; GETBULK agent model with every RFC-allowed cut; roots, repetitions and cuts enumerated",
